@@ -612,7 +612,7 @@ def _run_hist(case, res):
                 fresh.append(None)
             else:
                 fresh.append((x.dtype, tuple(x.shape), x.numpy().tobytes()))
-        if len({f for f in fresh if f is not None}) < 2:
+        if all(f is not None for f in fresh) and len(set(fresh)) < 2:
             raise HarnessError(f"history alphabet does not separate outputs for {key}")
         for h in histories(range(len(Ts)), 3):
             if fresh[h[-1]] is None:
